@@ -61,6 +61,9 @@ def gen_skeleton(rng, idx):
         alphabet.append(("torch", {"outs": losses, "ins": allp, "retain": retain}))
         alphabet.append(("torch", {"outs": feats, "ins": shared, "retain": retain}))
         alphabet.append(("backward", {"tensors": feats[:1], "inputs": shared, "k": None, "retain": retain}))
+        # follow-ups rooted INSIDE a head: an intermediate tensor of a parameter-only branch
+        for (pp, q) in getattr(prog, "probes", [])[:2]:
+            alphabet.append(("torch", {"outs": [pp], "ins": [q], "retain": retain}))
     return {"id": idx, "prog": prog.to_json(), "alphabet": alphabet, "m": len(losses)}
 
 
